@@ -22,7 +22,8 @@ open Cg
 variable {α β γ : Type}
 
 /-! ## 1. `Quaternion`: array / tuple / index views, order `x, y, z, s` -/
-/-- the array view lists the fields `v.x, v.y, v.z`, then `s` (the `repr(C)` order) -/
+/-- the model's array view lists the fields `v.x, v.y, v.z`, then `s` (true by construction of the model: `rfl` on the
+definition of `toArray`, which was written in the `repr(C)` field order of the Rust struct; no memory layout is modelled) -/
 theorem Quat.toArray_order (q : Quat α) : q.toArray = q.v.toList ++ [q.s] := rfl
 /-- the model's array view is the one the first part of C16 used -/
 theorem Quat.toArray_eq_props (q : Quat α) (l : List α) :
@@ -310,7 +311,8 @@ theorem runSwizzlePoint_of_ok (comp : Char → Option α) (vars : List Char) (up
   · intro k; rw [hrl]; exact hk k
 
 /-! ### the seven instantiations (`src/vector.rs:395-515`, `src/point.rs:347-355`) -/
-/-- every one of the 340 accessors generated for `Vector4` (`impl_swizzle_functions!(.., xyzw)`,
+/-- (about the model's generator `genSwizzleFns`, a Lean transcription of `build.rs`; the text `build.rs` really emits is not
+seen by Lean) every one of the 340 accessors it generates for `Vector4` (`impl_swizzle_functions!(.., xyzw)`,
 `upto = 4`): evaluating the emitted text on `v` gives the components named by the accessor's name,
 in order; the result is the `Vector<dim>` with `dim = name.length` holding exactly those components -/
 theorem V4.swizzle_sound_text (v : V4 α) (f : List Char × List Char × Nat)
@@ -320,7 +322,8 @@ theorem V4.swizzle_sound_text (v : V4 α) (f : List Char × List Char × Nat)
       swzEvalText v.comp? f.2.1 = some r.toList ∧ ∀ k : Nat, r.toList[k]? = (f.1[k]?).bind v.comp? :=
   runSwizzleVec_of_ok v.comp? ['x', 'y', 'z', 'w'] 4 (by omega) (by intro c hc; simp at hc; rcases hc with rfl | rfl | rfl | rfl <;> rfl) f
     (List.all_eq_true.mp swizzle_text_ok.2.2.2.2.2.2 f hf)
-/-- every one of the 120 accessors generated for `Vector3` (`impl_swizzle_functions!(.., xyz)`,
+/-- (about the model's generator `genSwizzleFns`, a Lean transcription of `build.rs`; the text `build.rs` really emits is not
+seen by Lean) every one of the 120 accessors it generates for `Vector3` (`impl_swizzle_functions!(.., xyz)`,
 `upto = 4`): evaluating the emitted text on `v` gives the components named by the accessor's name,
 in order; the result is the `Vector<dim>` with `dim = name.length` holding exactly those components -/
 theorem V3.swizzle_sound_text (v : V3 α) (f : List Char × List Char × Nat)
@@ -330,7 +333,8 @@ theorem V3.swizzle_sound_text (v : V3 α) (f : List Char × List Char × Nat)
       swzEvalText v.comp? f.2.1 = some r.toList ∧ ∀ k : Nat, r.toList[k]? = (f.1[k]?).bind v.comp? :=
   runSwizzleVec_of_ok v.comp? ['x', 'y', 'z'] 4 (by omega) (by intro c hc; simp at hc; rcases hc with rfl | rfl | rfl <;> rfl) f
     (List.all_eq_true.mp swizzle_text_ok.2.2.2.2.2.1 f hf)
-/-- every one of the 30 accessors generated for `Vector2` (`impl_swizzle_functions!(.., xy)`,
+/-- (about the model's generator `genSwizzleFns`, a Lean transcription of `build.rs`; the text `build.rs` really emits is not
+seen by Lean) every one of the 30 accessors it generates for `Vector2` (`impl_swizzle_functions!(.., xy)`,
 `upto = 4`): evaluating the emitted text on `v` gives the components named by the accessor's name,
 in order; the result is the `Vector<dim>` with `dim = name.length` holding exactly those components -/
 theorem V2.swizzle_sound_text (v : V2 α) (f : List Char × List Char × Nat)
@@ -340,7 +344,8 @@ theorem V2.swizzle_sound_text (v : V2 α) (f : List Char × List Char × Nat)
       swzEvalText v.comp? f.2.1 = some r.toList ∧ ∀ k : Nat, r.toList[k]? = (f.1[k]?).bind v.comp? :=
   runSwizzleVec_of_ok v.comp? ['x', 'y'] 4 (by omega) (by intro c hc; simp at hc; rcases hc with rfl | rfl <;> rfl) f
     (List.all_eq_true.mp swizzle_text_ok.2.2.2.2.1 f hf)
-/-- every one of the 4 accessors generated for `Vector1` (`impl_swizzle_functions!(.., x)`,
+/-- (about the model's generator `genSwizzleFns`, a Lean transcription of `build.rs`; the text `build.rs` really emits is not
+seen by Lean) every one of the 4 accessors it generates for `Vector1` (`impl_swizzle_functions!(.., x)`,
 `upto = 4`): evaluating the emitted text on `v` gives the components named by the accessor's name,
 in order; the result is the `Vector<dim>` with `dim = name.length` holding exactly those components -/
 theorem V1.swizzle_sound_text (v : V1 α) (f : List Char × List Char × Nat)
@@ -350,7 +355,8 @@ theorem V1.swizzle_sound_text (v : V1 α) (f : List Char × List Char × Nat)
       swzEvalText v.comp? f.2.1 = some r.toList ∧ ∀ k : Nat, r.toList[k]? = (f.1[k]?).bind v.comp? :=
   runSwizzleVec_of_ok v.comp? ['x'] 4 (by omega) (by intro c hc; simp at hc; subst hc; rfl) f
     (List.all_eq_true.mp swizzle_text_ok.2.2.2.1 f hf)
-/-- every one of the 39 accessors generated for `Point3` (`impl_swizzle_functions!(.., xyz)`,
+/-- (about the model's generator `genSwizzleFns`, a Lean transcription of `build.rs`; the text `build.rs` really emits is not
+seen by Lean) every one of the 39 accessors it generates for `Point3` (`impl_swizzle_functions!(.., xyz)`,
 `upto = 3`): evaluating the emitted text on `v` gives the components named by the accessor's name,
 in order; the result is the `Point<dim>` with `dim = name.length` holding exactly those components -/
 theorem P3.swizzle_sound_text (v : P3 α) (f : List Char × List Char × Nat)
@@ -360,7 +366,8 @@ theorem P3.swizzle_sound_text (v : P3 α) (f : List Char × List Char × Nat)
       swzEvalText v.comp? f.2.1 = some r.toList ∧ ∀ k : Nat, r.toList[k]? = (f.1[k]?).bind v.comp? :=
   runSwizzlePoint_of_ok v.comp? ['x', 'y', 'z'] 3 (by omega) (by intro c hc; simp at hc; rcases hc with rfl | rfl | rfl <;> rfl) f
     (List.all_eq_true.mp swizzle_text_ok.2.2.1 f hf)
-/-- every one of the 14 accessors generated for `Point2` (`impl_swizzle_functions!(.., xy)`,
+/-- (about the model's generator `genSwizzleFns`, a Lean transcription of `build.rs`; the text `build.rs` really emits is not
+seen by Lean) every one of the 14 accessors it generates for `Point2` (`impl_swizzle_functions!(.., xy)`,
 `upto = 3`): evaluating the emitted text on `v` gives the components named by the accessor's name,
 in order; the result is the `Point<dim>` with `dim = name.length` holding exactly those components -/
 theorem P2.swizzle_sound_text (v : P2 α) (f : List Char × List Char × Nat)
@@ -370,7 +377,8 @@ theorem P2.swizzle_sound_text (v : P2 α) (f : List Char × List Char × Nat)
       swzEvalText v.comp? f.2.1 = some r.toList ∧ ∀ k : Nat, r.toList[k]? = (f.1[k]?).bind v.comp? :=
   runSwizzlePoint_of_ok v.comp? ['x', 'y'] 3 (by omega) (by intro c hc; simp at hc; rcases hc with rfl | rfl <;> rfl) f
     (List.all_eq_true.mp swizzle_text_ok.2.1 f hf)
-/-- every one of the 3 accessors generated for `Point1` (`impl_swizzle_functions!(.., x)`,
+/-- (about the model's generator `genSwizzleFns`, a Lean transcription of `build.rs`; the text `build.rs` really emits is not
+seen by Lean) every one of the 3 accessors it generates for `Point1` (`impl_swizzle_functions!(.., x)`,
 `upto = 3`): evaluating the emitted text on `v` gives the components named by the accessor's name,
 in order; the result is the `Point<dim>` with `dim = name.length` holding exactly those components -/
 theorem P1.swizzle_sound_text (v : P1 α) (f : List Char × List Char × Nat)
@@ -419,7 +427,8 @@ example (v : V4 α) (p : P3 α) :
       = some (.v4 ⟨v.z, v.z, v.y, v.x⟩) ∧
     runSwizzlePoint p.comp? (['y', 'x'], "self.y, self.x, ".toList, 2) = some (.p2 ⟨p.y, p.x⟩) :=
   ⟨rfl, rfl, rfl⟩
-/-- the check is not true by construction: an accessor whose text reads other fields than its name
+/-- the check `fnOk` is not vacuous (for the accessors that the model's generator produces it does hold by construction of that
+generator, for any letters and any `upto`: `genSwizzleFns_parse` below): an accessor whose text reads other fields than its name
 says, reads them in another order, has the wrong arity / dimension, or is not of the emitted shape,
 is rejected; and the semantic statement fails for it on a value with distinct components -/
 example : fnOk ['x', 'y', 'z', 'w'] 4 (['x', 'y'], "self.y, self.x, ".toList, 2) = false ∧
@@ -528,8 +537,9 @@ theorem ofTuple_get (a b c d : α) :
     (P1.ofTuple a).toList = [a] ∧
     (V4.ofTuple (a, b, c, d)).get? 3 = some d ∧ (V3.ofTuple (a, b, c)).get? 2 = some c := by
   exact ⟨rfl, rfl, rfl, rfl, rfl, rfl, rfl, rfl, rfl⟩
-/-- a write through the index view is visible through the tuple view (`AsMut<(S, .., S)>` and
-`IndexMut` look at the same storage): the tuple afterwards is the old tuple with position `i` replaced -/
+/-- in the model, the tuple view of the functional update `set? i a` is the old tuple with position `i` replaced.  (This is how
+the model renders "`AsMut<(S, .., S)>` and `IndexMut` look at the same storage"; the model has no storage or aliasing, so the
+statement is about pure values only) -/
 theorem V4.set_toTuple (v : V4 α) (i : Fin 4) (a : α) :
     (v.set? i a).map (fun v' => tuple4List v'.toTuple) = some ((tuple4List v.toTuple).set i a) := by
   fin_cases i <;> rfl
